@@ -180,7 +180,11 @@ func (r *Run) callSSA(g *Goroutine, caller *frame, fn *ssa.Function, args []Valu
 		r.abort("unsupported call: %s (%s)", fn.String(), info.err)
 	}
 	if fn.Synthetic == "package initializer" && r.wantInit != fn {
-		// dependencies are initialised on demand
+		// dependencies are initialised on demand - except plug-in packages that exist only for their init
+		// (blank imports: wharf's compressor / decompressor adapters register themselves there)
+		if fn.Pkg != nil && eagerInit(fn.Pkg.Pkg.Path()) {
+			r.initPackage(g, fn.Pkg)
+		}
 		return nil
 	}
 	if fn.Pkg != nil && !r.inited[fn.Pkg] {
@@ -827,6 +831,10 @@ func (r *Run) globalAddr(gl *ssa.Global) *Value {
 	p := &cell
 	r.globals[gl] = p
 	return p
+}
+
+func eagerInit(path string) bool {
+	return strings.HasPrefix(path, "github.com/itchio/wharf/compressors/") || strings.HasPrefix(path, "github.com/itchio/wharf/decompressors/")
 }
 
 // initPackage runs the package initialiser on demand (dependencies are
